@@ -183,6 +183,58 @@ def crosshair_task(task, res):
     return res
 
 
+def roundtrip(ns, n, level, ties):
+    """the code under test: writer -> (file) -> reader; ties symbolic or concrete"""
+    ents = entries(n)
+    if level == 'func':
+        toks = ns.gshared.create_string_pref(list(ents), ties)
+        simp, ranks = ns.fileIO._get_simple_pref_list_and_ranks(list(toks))
+        return {'tokens': toks, 'lists': [(simp, ranks)]}
+    d = tempfile.mkdtemp(prefix='vf_c13_')
+    try:
+        if level == 'hr':
+            # n residents-side list on resident 1 over n hospitals; hospital 1 ranks n residents
+            n1 = n2 = n
+            res_lists = [list(ents)] + [[((i + k) % n) + 1 for k in range(1)] for i in range(1, n1)]
+            res_ties = [ties] + [[0] for _ in range(1, n1)]
+            hosp_lists = [list(ents)] + [[1] for _ in range(1, n2)]
+            hosp_ties = [ties] + [[0] for _ in range(1, n2)]
+            # make lists consistent: everyone ranks hospital 1, resident 1 ranks everyone
+            res_lists = [list(ents)] + [[1] for _ in range(1, n1)]
+            text = ns.ghr.Generator_ha_sm_hr().create_instance(
+                n1, n2, res_lists, res_ties, hosp_lists, hosp_ties, [0] * n2, [n1] * n2, 'info\n')
+            na = 2
+        else:
+            n1 = n2 = n
+            n3 = 1
+            st_lists = [list(ents)] + [[1] for _ in range(1, n1)]
+            st_ties = [ties] + [[0] for _ in range(1, n1)]
+            text = ns.gspa.Generator_spa().create_instance(
+                n1, n2, n3, st_lists, st_ties, [1] * n2, [0] * n2, [n1] * n2,
+                [list(ents)], [ties], [0], [0], [n1], 'info\n')
+            na = 3
+        path = os.path.join(d, 'i.txt')
+        with open(path, 'w') as f:
+            f.write(text)
+        opts = {ns.enums.Instance_options.NUMAGENTS: na, ns.enums.Instance_options.TWOPL: True,
+                ns.enums.Instance_options.PC: False}
+        model = ns.fileIO._import_from_file(path, opts)
+    finally:
+        shutil.rmtree(d, ignore_errors=True)
+    row = model.pairs[0]
+    first = ([p.projectID for p in row], [p.rank_student for p in row])
+    # second side: lecturer/hospital 1's ranks of students, in the written order
+    second_ranks = []
+    for sidx in ents:
+        pr = [q for q in model.pairs[sidx - 1] if q.lecturerID == 1][0]
+        second_ranks.append(pr.rank_lecturer)
+    lines = text.split('\n')
+    return {'tokens': lines[1].split(':')[1].split(),
+            'tokens2': lines[n1 + 1].split(':')[3 if na == 2 else 4].split() if na == 2 else lines[n1 + n2 + 1].split(':')[4].split(),
+            'lists': [first, (list(ents), second_ranks)]}
+
+
+
 def run_task(task):
     n, level = task['n'], task['level']
     if level == 'crosshair':
@@ -200,52 +252,7 @@ def run_task(task):
             e.assume((t == 0) | (t == 1))
         tt = [t.t for t in ties]
         e.notes['ties'] = tt
-        if level == 'func':
-            toks = ns.gshared.create_string_pref(list(ents), ties)
-            simp, ranks = ns.fileIO._get_simple_pref_list_and_ranks(list(toks))
-            return {'tokens': toks, 'lists': [(simp, ranks)]}
-        d = tempfile.mkdtemp(prefix='vf_c13_')
-        try:
-            if level == 'hr':
-                # n residents-side list on resident 1 over n hospitals; hospital 1 ranks n residents
-                n1 = n2 = n
-                res_lists = [list(ents)] + [[((i + k) % n) + 1 for k in range(1)] for i in range(1, n1)]
-                res_ties = [ties] + [[0] for _ in range(1, n1)]
-                hosp_lists = [list(ents)] + [[1] for _ in range(1, n2)]
-                hosp_ties = [ties] + [[0] for _ in range(1, n2)]
-                # make lists consistent: everyone ranks hospital 1, resident 1 ranks everyone
-                res_lists = [list(ents)] + [[1] for _ in range(1, n1)]
-                text = ns.ghr.Generator_ha_sm_hr().create_instance(
-                    n1, n2, res_lists, res_ties, hosp_lists, hosp_ties, [0] * n2, [n1] * n2, 'info\n')
-                na = 2
-            else:
-                n1 = n2 = n
-                n3 = 1
-                st_lists = [list(ents)] + [[1] for _ in range(1, n1)]
-                st_ties = [ties] + [[0] for _ in range(1, n1)]
-                text = ns.gspa.Generator_spa().create_instance(
-                    n1, n2, n3, st_lists, st_ties, [1] * n2, [0] * n2, [n1] * n2,
-                    [list(ents)], [ties], [0], [0], [n1], 'info\n')
-                na = 3
-            path = os.path.join(d, 'i.txt')
-            with open(path, 'w') as f:
-                f.write(text)
-            opts = {ns.enums.Instance_options.NUMAGENTS: na, ns.enums.Instance_options.TWOPL: True,
-                    ns.enums.Instance_options.PC: False}
-            model = ns.fileIO._import_from_file(path, opts)
-        finally:
-            shutil.rmtree(d, ignore_errors=True)
-        row = model.pairs[0]
-        first = ([p.projectID for p in row], [p.rank_student for p in row])
-        # second side: lecturer/hospital 1's ranks of students, in the written order
-        second_ranks = []
-        for sidx in ents:
-            pr = [q for q in model.pairs[sidx - 1] if q.lecturerID == 1][0]
-            second_ranks.append(pr.rank_lecturer)
-        lines = text.split('\n')
-        return {'tokens': lines[1].split(':')[1].split(),
-                'tokens2': lines[n1 + 1].split(':')[3 if na == 2 else 4].split() if na == 2 else lines[n1 + n2 + 1].split(':')[4].split(),
-                'lists': [first, (list(ents), second_ranks)]}
+        return roundtrip(ns, n, level, ties)
 
     E = S.Engine(max_paths=20000, timeout=900)
     paths = E.explore(body)
@@ -304,12 +311,13 @@ def replay(cex):
         return False, 'no tie vector'
     ents = entries(n)
     import numpy as np
+    level = d.get('level', 'func')
+    if level not in ('func', 'hr', 'spa'):
+        level = 'func'
     try:
-        toks = ns.gshared.create_string_pref(list(ents), np.array(ties))
-        simp, ranks = ns.fileIO._get_simple_pref_list_and_ranks(list(toks))
+        out = roundtrip(ns, n, level, np.array(ties))
     except Exception as e:  # noqa
-        return True, 'entries %s ties %s: real functions raised %r' % (ents, ties, e)
-    g = groups_of_tokens(toks)
+        return True, 'entries %s ties %s (%s level): real functions raised %r' % (ents, ties, level, e)
     exp_ranks, r = [], 1
     for i in range(n):
         exp_ranks.append(r)
@@ -323,9 +331,13 @@ def replay(cex):
             exp_groups.append(cur)
             cur = [i + 1]
     exp_groups.append(cur)
-    bad = (g != exp_groups) or list(ranks) != exp_ranks or list(simp) != ents
-    return bad, 'entries %s ties %s -> text %r -> ranks %s (expected groups %s, ranks %s)' % (
-        ents, ties, ' '.join(toks), list(ranks), exp_groups, exp_ranks)
+    bad = groups_of_tokens(out['tokens']) != exp_groups
+    if 'tokens2' in out:
+        bad = bad or groups_of_tokens(out['tokens2']) != exp_groups
+    for simp, ranks in out['lists']:
+        bad = bad or list(ranks) != exp_ranks or list(simp) != ents
+    return bad, 'entries %s ties %s (%s level) -> text %r -> ranks read back %s (expected groups %s, ranks %s)' % (
+        ents, ties, level, ' '.join(out['tokens']), [list(r_) for _, r_ in out['lists']], exp_groups, exp_ranks)
 
 
 def describe_task(t):
